@@ -370,6 +370,7 @@ class InlineFragment(SupportDirectives, Selection):
 
 class FragmentDefinition(SupportDirectives, ExecutableDefinition):
     __slots__ = (
+        "source",
         "loc",
         "name",
         "variable_definitions",
